@@ -38,6 +38,8 @@ type Spec struct {
 	Notes    []string `json:"assumptions"`
 	Runs     []Run    `json:"runs"`
 	Gen      []GenPkg `json:"gen"`
+	// GenRepoTests: also regenerate generator/test-*/ of the repository and type-check them
+	GenRepoTests bool `json:"gen_repo_tests"`
 }
 
 // GenPkg is a virtual package of regenerated templates.
@@ -188,8 +190,12 @@ func main() {
 	ld := newLoader(&spec, hdir, scratch)
 	if len(spec.Gen) > 0 {
 		if err := ld.regenerate(); err != nil {
-			// failure of regenerated code to be produced is reported by the caller
 			fatal(2, "regeneration failed: %v", err)
+		}
+	}
+	if spec.GenRepoTests && *only == "" {
+		if err := ld.regenerateRepoTests(); err != nil {
+			fatal(2, "regeneration of the repository's generator tests failed: %v", err)
 		}
 	}
 
@@ -197,6 +203,16 @@ func main() {
 	tl := time.Now()
 	prog, pkgs, err := ld.load(*only)
 	if err != nil {
+		if strings.Contains(err.Error(), "_templ.go") && (len(spec.Gen) > 0 || spec.GenRepoTests) {
+			// the code emitted by the current generator does not type-check
+			rdir := filepath.Join(verifDir, "replays", prop)
+			os.MkdirAll(rdir, 0o755)
+			rp := filepath.Join(rdir, "compile-0.json")
+			writeJSON(rp, map[string]interface{}{"property": prop, "kind": "compile", "errors": err.Error()})
+			fmt.Printf("VIOLATION property=%s replay=%s\n  regenerated code does not compile: %v\n", prop, rp, err)
+			writeCompileEvidence(prop, *tier, seed, &spec, err.Error(), time.Since(t0))
+			exit(1)
+		}
 		fatal(2, "load failed: %v", err)
 	}
 	loadTime := time.Since(tl)
@@ -387,6 +403,7 @@ func main() {
 			inconclusive = true
 		}
 	}
+	extraPrograms = ld.programs
 	writeEvidence(prop, *tier, seed, &spec, results, loadTime, time.Since(t0), nviol, *noNative)
 	for _, res := range results {
 		if res.rep != nil {
@@ -453,6 +470,7 @@ func contains(xs []string, x string) bool {
 }
 
 var cleanupDir string
+var extraPrograms int
 
 func exit(code int) {
 	if cleanupDir != "" {
@@ -483,12 +501,15 @@ func writeJSON(path string, v interface{}) {
 // ---- loading ----
 
 type loader struct {
-	spec    *Spec
-	hdir    string
-	scratch string
-	overlay map[string]string // virtual path under /repo -> real file
-	pkgDirs map[string]string // import path -> dir
-	pkgName map[string]string
+	spec          *Spec
+	hdir          string
+	scratch       string
+	overlay       map[string]string // virtual path under /repo -> real file
+	pkgDirs       map[string]string // import path -> dir
+	pkgName       map[string]string
+	genWork       []string
+	extraPatterns []string
+	programs      int
 }
 
 func newLoader(spec *Spec, hdir, scratch string) *loader {
@@ -509,6 +530,7 @@ func (ld *loader) load(only string) (*ssa.Program, []*packages.Package, error) {
 	if err != nil {
 		return nil, nil, err
 	}
+	patterns = append(patterns, ld.extraPatterns...)
 	cfg := &packages.Config{Mode: packages.LoadAllSyntax, Dir: repoDir, Env: goEnv, Overlay: map[string][]byte{}}
 	for v, real := range ld.overlay {
 		b, err := os.ReadFile(real)
@@ -560,17 +582,57 @@ func (ld *loader) native(pkgs []*packages.Package, run Run, cases []sym.Case) ([
 	src = strings.Replace(src, "ENTRIES", fmt.Sprintf("%q: %s,", run.Entry, run.Entry), 1)
 	testPath := filepath.Join(ld.scratch, "replay_"+run.Name+"_test.go")
 	os.WriteFile(testPath, []byte(src), 0o644)
-	ov := map[string]string{}
-	for v, real := range ld.overlay {
-		ov[v] = real
-	}
-	ov[filepath.Join(dir, "zz_verif_replay_test.go")] = testPath
-	ovPath := filepath.Join(ld.scratch, "overlay_"+run.Name+".json")
-	writeJSON(ovPath, map[string]interface{}{"Replace": ov})
 	casesPath := filepath.Join(ld.scratch, "cases_"+run.Name+".json")
 	writeJSON(casesPath, cases)
-	cmd := exec.Command("go", "test", "-v", "-vet=off", "-count=1", "-run", "^TestVerifReplay$", "-overlay", ovPath, "-timeout", "300s", run.Pkg)
-	cmd.Dir = repoDir
+	var cmd *exec.Cmd
+	if _, statErr := os.Stat(dir); statErr != nil {
+		// the package exists only as an overlay (regenerated code): `go test -overlay` cannot
+		// enter a directory that is not on disk, so build it as a scratch module that
+		// replaces github.com/a-h/templ by /repo
+		mdir := filepath.Join(ld.scratch, "native_"+run.Name)
+		os.RemoveAll(mdir)
+		os.MkdirAll(mdir, 0o755)
+		for v, real := range ld.overlay {
+			if filepath.Dir(v) == dir {
+				b, _ := os.ReadFile(real)
+				os.WriteFile(filepath.Join(mdir, filepath.Base(v)), b, 0o644)
+			}
+		}
+		b, _ := os.ReadFile(testPath)
+		os.WriteFile(filepath.Join(mdir, "zz_verif_replay_test.go"), b, 0o644)
+		gomod, _ := os.ReadFile(filepath.Join(repoDir, "go.mod"))
+		var req []string
+		inReq := false
+		for _, line := range strings.Split(string(gomod), "\n") {
+			t := strings.TrimSpace(line)
+			switch {
+			case strings.HasPrefix(t, "require ("):
+				inReq = true
+			case inReq && t == ")":
+				inReq = false
+			case inReq && t != "":
+				req = append(req, "\t"+t)
+			case strings.HasPrefix(t, "require "):
+				req = append(req, "\t"+strings.TrimPrefix(t, "require "))
+			}
+		}
+		mod := "module zzverifnative\n\ngo 1.23\n\nrequire (\n\tgithub.com/a-h/templ v0.0.0\n" + strings.Join(req, "\n") + "\n)\n\nreplace github.com/a-h/templ => /repo\n"
+		os.WriteFile(filepath.Join(mdir, "go.mod"), []byte(mod), 0o644)
+		sum, _ := os.ReadFile(filepath.Join(repoDir, "go.sum"))
+		os.WriteFile(filepath.Join(mdir, "go.sum"), sum, 0o644)
+		cmd = exec.Command("go", "test", "-v", "-vet=off", "-count=1", "-run", "^TestVerifReplay$", "-timeout", "300s", ".")
+		cmd.Dir = mdir
+	} else {
+		ov := map[string]string{}
+		for v, real := range ld.overlay {
+			ov[v] = real
+		}
+		ov[filepath.Join(dir, "zz_verif_replay_test.go")] = testPath
+		ovPath := filepath.Join(ld.scratch, "overlay_"+run.Name+".json")
+		writeJSON(ovPath, map[string]interface{}{"Replace": ov})
+		cmd = exec.Command("go", "test", "-v", "-vet=off", "-count=1", "-run", "^TestVerifReplay$", "-overlay", ovPath, "-timeout", "300s", run.Pkg)
+		cmd.Dir = repoDir
+	}
 	cmd.Env = append(goEnv, "VERIF_CASES="+casesPath)
 	out, err := cmd.CombinedOutput()
 	outs := make([]nativeOut, len(cases))
@@ -600,10 +662,32 @@ func doReplay(spec *Spec, hdir, scratch, path string) int {
 		Run      string   `json:"run"`
 		Case     sym.Case `json:"case"`
 		Message  string   `json:"message"`
+		Kind     string   `json:"kind"`
 	}
 	if err := readJSON(path, &rf); err != nil {
 		fmt.Println("cannot read replay file:", err)
 		return 2
+	}
+	if rf.Kind == "compile" {
+		ld := newLoader(spec, hdir, scratch)
+		if len(spec.Gen) > 0 {
+			if err := ld.regenerate(); err != nil {
+				fmt.Println("regeneration failed:", err)
+				return 2
+			}
+		}
+		if spec.GenRepoTests {
+			if err := ld.regenerateRepoTests(); err != nil {
+				fmt.Println("regeneration failed:", err)
+				return 2
+			}
+		}
+		if _, _, err := ld.load(""); err != nil && strings.Contains(err.Error(), "_templ.go") {
+			fmt.Printf("replay %s: regenerated code does not compile: %v\nVIOLATION property=%s replay=%s\n", path, err, rf.Property, path)
+			return 1
+		}
+		fmt.Println("the regenerated code compiles on the current tree")
+		return 0
 	}
 	ld := newLoader(spec, hdir, scratch)
 	if len(spec.Gen) > 0 {
